@@ -90,6 +90,9 @@ def _check_token(ctx, what, tok, expect):
                 for piece in expect[2]:
                     data.extend(_slots_of(piece))
                 good = SymbolicBool(T.html_label_matches(slots, expect[1], data, sp))
+        if ctx.params.get("xcheck"):
+            res = ctx.cross_check(good, what)
+            ctx.check(not any(v == "sat" for v in res.values()), "solvers disagree on the kernel query (inconclusive): %s" % res)
         ctx.check(good, "%s is not a single well-formed DOT token denoting its source text (syntax break / markup injection)" % what)
     else:
         from oracles import transducers as T
@@ -358,7 +361,10 @@ HTML_CASES = (1, 3, 4, 7, 8)
 def _kernel_shards(tier):
     # quoted-string cases are cheap; HTML-like labels (entity decoding + skeleton) are the expensive queries
     nq, nh = (6, 3) if tier == "quick" else (12, 6)
-    return [{"case": c, "n": (nh if c in HTML_CASES else nq)} for c in range(len(CASES))]
+    out = [{"case": c, "n": (nh if c in HTML_CASES else nq)} for c in range(len(CASES))]
+    # second-opinion solvers (z3 4.8.12, cvc5 1.0.3 binaries) on the quoted-string and the HTML node-label kernels
+    out += [{"case": 0, "n": 4, "xcheck": True}, {"case": 5, "n": 4, "xcheck": True}, {"case": 1, "n": 2, "xcheck": True}]
+    return out
 
 
 def _structure_shards(tier):
